@@ -116,7 +116,7 @@ def parse_ok(lines, path: str) -> bool:
 
 def _guard(fn):
     try:
-        res, hung = ws.guarded(fn, 30)
+        res, hung = ws.guarded(fn, 120)
     except Exception as e:  # an exception escaping the indexer IS the violation
         _FAIL.append(("exception", type(e).__name__, str(e)[:200]))
         return False
